@@ -327,9 +327,9 @@ pub fn run(tier: Tier) -> ! {
     }
 
     // 1. permutation on many states
-    let n_states: u64 = run.pick(1_500_000, 30_000_000);
+    let n_states: u64 = run.n(48, 1_500_000, 30_000_000);
     let seed = run.seed;
-    let chunk = 5_000u64;
+    let chunk = if run.micro() { 12 } else { 5_000u64 };
     let results: Vec<(u64, u64, Vec<(String, Value)>, Option<Value>)> = (0..n_states / chunk)
         .into_par_iter()
         .map(|ci| {
@@ -396,8 +396,12 @@ pub fn run(tier: Tier) -> ! {
     // 2. sponge functions, every length 0..=40, several value classes
     {
         let mut rng = run.rng(13_002, 0);
-        for rep in 0..run.pick(6u64, 200) {
+        let micro = run.micro();
+        for rep in 0..run.n(1, 6, 200) {
             for len in 0..=40usize {
+                if micro && !(len % 4 == 0 || len == 7 || len == 9) {
+                    continue;
+                }
                 let xs: Vec<u64> = (0..len).map(|_| if rep % 2 == 0 { gen::canon_u64(&mut rng, &bset) } else { gen::raw_u64(&mut rng, &bset) }).collect();
                 let fs: Vec<F> = xs.iter().map(|&x| F(x)).collect();
                 let want4 = sponge_hash_no_pad(&perm, &xs, 4);
@@ -434,6 +438,9 @@ pub fn run(tier: Tier) -> ! {
                 }
                 // n-to-m for several output counts
                 for m in [1usize, 4, 7, 8, 9, 16, 17, 20] {
+                    if micro && !(m == 4 || m == 9) {
+                        continue;
+                    }
                     run.eval();
                     let got = hash_n_to_m_no_pad::<F, PoseidonPermutation<F>>(&fs, m);
                     if got.iter().map(|x| x.to_canonical_u64()).collect::<Vec<_>>() != sponge_hash_no_pad(&perm, &xs, m) {
@@ -455,7 +462,7 @@ pub fn run(tier: Tier) -> ! {
 
     // 3. challenger scripts vs duplex model, and re-chunked replays
     {
-        let n_scripts = run.pick(10_000u64, 200_000);
+        let n_scripts = run.n(6, 10_000, 200_000);
         let res: Vec<(u64, Vec<(String, Value)>, Option<Value>)> = (0..n_scripts)
             .into_par_iter()
             .map(|i| {
@@ -496,7 +503,8 @@ pub fn run(tier: Tier) -> ! {
 
     // 4. RecursiveChallenger by witness generation
     {
-        let n = run.pick(48u64, 600);
+        // (circuit building is out of an interpreter's reach: not part of the micro tier)
+        let n = run.n(0, 48, 600);
         let res: Vec<Vec<(String, Value)>> = (0..n)
             .into_par_iter()
             .map(|i| {
@@ -532,7 +540,7 @@ pub fn run(tier: Tier) -> ! {
             run.inconclusive("reference Keccak-256 fails the empty-string known answer: harness defect");
         }
         let mut rng = run.rng(13_005, 0);
-        for _ in 0..run.pick(300, 20_000) {
+        for _ in 0..run.n(4, 300, 20_000) {
             let s = gen_state(&mut rng, &bset);
             run.eval();
             let mut p = KeccakPermutation::<F>::new(to_f(&s));
@@ -565,7 +573,7 @@ pub fn run(tier: Tier) -> ! {
                 fails.push("keccak.hash_or_noop", json!({"len": len}));
             }
         }
-        for _ in 0..50 {
+        for _ in 0..run.n(3, 50, 50) {
             let l: [u8; 25] = rng.gen();
             let r: [u8; 25] = rng.gen();
             let mut cat = l.to_vec();
@@ -576,7 +584,7 @@ pub fn run(tier: Tier) -> ! {
                 fails.push("keccak.two_to_one", json!({}));
             }
         }
-        for i in 0..run.pick(100u64, 3_000) {
+        for i in 0..run.n(3, 100, 3_000) {
             let mut rng = run.rng(13_006, i);
             let script: Vec<Op> = gen_script(&mut rng, &bset, false);
             let want = model_script(&keccak_perm_ref, &script);
